@@ -113,23 +113,32 @@ func newRaceReports() []string {
 func raceSite(rep string) (site string, harnessOnly bool) {
 	parts := regexp.MustCompile(`(?m)^(Previous (read|write)|Read|Write) at `).Split(rep, -1)
 	var tops []string
+	nRefinery := 2
 	for _, part := range parts[1:] {
 		// only the access stack, not the "Goroutine N created at" parts
 		if i := strings.Index(part, "Goroutine "); i >= 0 {
 			part = part[:i]
 		}
-		top := ""
+		top, first := "", ""
 		for _, line := range strings.Split(part, "\n") {
 			l := strings.TrimSpace(line)
+			if first == "" && strings.Contains(l, "(") && !strings.HasPrefix(l, "/") && !strings.HasPrefix(l, "runtime.") && strings.Contains(l, ".") && !strings.Contains(l, " ") {
+				first = l[:strings.LastIndex(l, "(")]
+			}
 			if strings.HasPrefix(l, "github.com/honeycombio/refinery/") && !strings.Contains(l, "/verifsim.") {
 				top = l[:strings.LastIndex(l, "(")]
 				top = strings.TrimPrefix(top, "github.com/honeycombio/refinery/")
 				break
 			}
 		}
+		if top == "" {
+			nRefinery--
+			// no refinery frame in this stack (a goroutine of a dependency): name its own top frame
+			top = "dep:" + first
+		}
 		tops = append(tops, top)
 	}
-	if len(tops) < 2 || (tops[0] == "" && tops[1] == "") {
+	if len(tops) < 2 || nRefinery <= 0 {
 		return "", true
 	}
 	sort.Strings(tops)
